@@ -8,6 +8,7 @@ L-line semantics, plus a boundary oracle on `gaftools find_path` (single path, f
 
 import collections
 import os
+from vf.util import vary_name  # noqa: E402
 
 from vf import monitor as M
 from vf.cli import run_cli
@@ -155,7 +156,7 @@ def run_case(ctx, rng, index, casedir):
             n.seq = "".join(c.lower() if rng.random() < 0.4 else (c if rng.random() < 0.95 else "N") for c in n.seq)
         sit["mixed_case_graphs"] += 1
     gz = rng.random() < 0.3
-    gpath = os.path.join(casedir, "g.gfa" + (".gz" if gz else ""))
+    gpath = os.path.join(casedir, vary_name(rng, "g.gfa") + (".gz" if gz else ""))
     g.write(gpath, rng=rng, shuffle=rng.random() < 0.5, interleave=rng.random() < 0.3)
     pairs = g.step_pairs()
     seqs = g.seqs()
